@@ -104,7 +104,30 @@ def run_verus(path, rlimit=30, threads=4, extra=None):
     return {"cmd": " ".join(cmd), "rc": p.returncode, "json": res, "diags": diags, "stderr": p.stderr, "wall": wall}
 
 
+AUTO_RX = re.compile(r"(?:cannot find (?:function|value|type|struct, variant or union type) `(\w+)` in this scope|variable `([A-Z][A-Z0-9_]+)` is not bound in all patterns) at src/([\w/\.]+):")
+
+
 def run_unit(name, prop, canary=False, mutate=None, suffix=""):
+    """Assemble + verify; helpers the extracted text references but the unit does not list are
+    pulled in automatically (at most 4 rounds)."""
+    for _ in range(5):
+        snap = {k: set(v) for k, v in core.AUTO.items()}
+        out = _run_unit(name, prop, canary, mutate, suffix)
+        new = False
+        for msg in out["undecided"]:
+            m = AUTO_RX.search(msg)
+            if m:
+                st = core.AUTO.setdefault(m.group(3), set())
+                nm = m.group(1) or m.group(2)
+                if nm not in snap.get(m.group(3), set()):
+                    new = True
+                st.add(nm)
+        if not new:
+            return out
+    return out
+
+
+def _run_unit(name, prop, canary=False, mutate=None, suffix=""):
     """Assemble + verify.  Returns dict(unit, failures, undecided, verified, ...)."""
     os.makedirs(BUILD, exist_ok=True)
     u, text = assemble(name, prop, canary, mutate)
